@@ -90,7 +90,7 @@ CacheBad(evs) ==
   { [property |-> "C13", clause |-> "Transparent",
      sig |-> "cache-returned-foreign-docstring:" \o (IF j > 1 /\ evs[j][2] = evs[j - 1][1] THEN "of-previous-lookup" ELSE "other"),
      expected |-> evs[j][1], observed |-> evs[j][2]]
-    : j \in { j \in 1..Len(evs) : evs[j][2] # evs[j][1] /\ evs[j][2] # "@none" } }
+    : j \in { j \in 1..Len(evs) : evs[j][2] # evs[j][1] /\ evs[j][2] \notin {"@none", "@own"} } }     \* "@own": parsed from the declaration's own text
 JudgeCache(obs) == CacheBad(obs.events)
 Judge(obs) ==
   UNION { LET l == obs.steps[j].l
